@@ -259,10 +259,21 @@ func mIndexAny(f *frame, st *State, ins *ssa.Call, args []Val) Val {
 	return VInt{r}
 }
 
+// ufView: a byte view that is an uninterpreted function of another view (memory, offset, length)
+func (ex *Exec) ufView(st *State, name string, ms T, s VSlice, str bool) VSlice {
+	fm := ex.decls.fun(name+"_mem", []string{SBytes, SInt, SInt}, SBytes)
+	fl := ex.decls.fun(name+"_len", []string{SBytes, SInt, SInt}, SInt)
+	r := ex.newRegion(name, false, true)
+	st.mem[r] = []T{app(fm, ms, s.Off, s.Len)}
+	ln := app(fl, ms, s.Off, s.Len)
+	return VSlice{R: r, Elem: byteType, Off: "0", Len: ln, Cap: ln, Str: str}
+}
+
 func mToLower(f *frame, st *State, ins *ssa.Call, args []Val) Val {
 	s, ms := bytesOf(st, args[0])
 	ex := f.ex
-	r := ex.freshSlice(st, "lower", types.Typ[types.Uint8], true, false)
+	r := ex.ufView(st, "lowerOf", ms, s, true)
+	st.assume(tAnd(tLe("0", r.Len), tLe(r.Len, two48)))
 	r.R.fresh = true
 	ex.assumed["strings.ToLower: length preserved and bytes lower-cased for ASCII input (non-ASCII abstracted)"] = true
 	if f.quant() {
@@ -576,6 +587,11 @@ func init() {
 		st.assume(tImp(tAnd(hasDecl, tNot(encUTF8), tEq(cr, "0")), tNe(err, "0")))
 		st.ghost["xml_src"] = src
 		st.ghost["xml_err"] = VInt{err}
+		// for a document that starts with a declaration the first raw token is the processing
+		// instruction <?xml ...?>; its Inst is a function of the document (xmlInst)
+		inst := ex.ufView(st, "xmlInst", ms, src, false)
+		st.assume(tAnd(tLe("0", inst.Len), tLe(inst.Len, src.Len)))
+		st.ghost["xmltok:"+tokID] = VTuple{E: []Val{VBool{tAnd(hasDecl, tEq(err, "0"))}, inst}}
 		return out
 	}
 }
